@@ -380,7 +380,9 @@ def build():
     for R in (1, 2, 3):
         def post_integral(wp, rv, R=R):
             called = [e for e in wp.events if e[0] == 'get']
-            ok = len(called) == 1 and called[0] == ('get', 'itensor', 'otensor', R)
+            # every application of get seen on the path to THIS return site is to (itensor, otensor); how many there are is the
+            # first clause (ghost counter): a return site in front of the call (early return for the empty tensor) has seen none
+            ok = len(called) <= 1 and all(e == ('get', 'itensor', 'otensor', R) for e in called)
             return [('a non-empty tensor is integrated exactly once, an empty one is left alone',
                      f'(= {wp.env["ghost.gets"].t} (ite (> {wp.P("itensor")[0]} 0) 1 0))'),
                     ('integral_t<R>::get is applied to (itensor, otensor)', 'true' if ok else 'false')]
